@@ -115,7 +115,13 @@ def build(u):
     u.spec(SPEC, "derive::spec", props=P)
     u.emit("impl<'a> IdenVariant<'a> {\n")
     B = "impl<'a, T> IdenVariant<'a, T> where T: WriteArm,"
-    r_is = make_r_sub("R-strfn", r'self\.ident == "Table"', 'vident_is(self.ident, "Table")')
+    def r_is(text, ctx):
+        new, n = re.subn(r'self\.ident == "Table"', 'vident_is(self.ident, "Table")', text)
+        new, n2 = re.subn(r'self\.ident != "Table"', '!vident_is(self.ident, "Table")', new)
+        if n + n2 < 1:
+            raise rl.LostAnchor(ctx.key + ': R-strfn: no comparison of the identifier with "Table"')
+        ctx.app("R-strfn", 'self.ident ==|!= "Table"', "[!]vident_is(self.ident, \"Table\")")
+        return new
     r_own = make_r_sub("R-strfn", r"self\.table_name\.to_owned\(\)", "vstr_owned(self.table_name)")
     r_snake = make_r_sub("R-strfn", r"self\.ident\.to_string\(\)\.to_snake_case\(\)", "vsnake_ident(self.ident)")
     u.fn(W, B, "table_or_snake_case", ret="r", props=P, key="IdenVariant::table_or_snake_case", vpath="IdenVariant::table_or_snake_case",
@@ -129,13 +135,13 @@ def build(u):
          spec="requires\n    // from the call sites: a flattened variant delegates to its field and never reaches this function (unreachable!())\n    !(self.attr == Some(IdenAttr::Flatten)),\n"
               "ensures\n    // the arm writes: the rename, the method's result, else the Table / snake_case name\n    r == arm_of(variant, name_tokens(*self)),")
     u.fn(W, B, "must_be_valid_iden", ret="r", props=P, key="IdenVariant::must_be_valid_iden", vpath="IdenVariant::must_be_valid_iden",
-         rules=[make_r_sub("R-strfn", r"name\.to_owned\(\)", "vstring_clone(name)")],
+         rules=[make_r_sub("R-strfn", r"\b(\w+)\.(?:to_owned|clone|to_string)\(\)", r"vstring_clone(\1)", min_count=0)],
          spec="ensures\n    // the fast path is decided on exactly the name the variant spells; a name only known at run time (method, flatten) never takes it\n    r == (static_name(*self) is Some && mbvi(static_name(*self)->Some_0)),")
     u.emit("}\n")
     u.fn(L, None, "get_table_name", ret="r", props=P, key="derive::get_table_name", vpath="get_table_name",
          rules=[make_r_sub("R-path", r"ident: &proc_macro2::Ident, attrs: Vec<Attribute>\) -> Result<String, syn::Error>", "ident: &Ident, attrs: Vec<Attribute>) -> Result<String, SynError>"),
-                make_r_sub("R-into", r"att\.try_into\(\)\?", "vparse_attr(att)?"),
-                make_r_sub("R-path", r"syn::Error::new_spanned\(att, ErrorMsg::ContainerAttr\)", "verr_container(att)"),
+                make_r_sub("R-into", r"\b(\w+)\.try_into\(\)\?", r"vparse_attr(\1)?"),
+                make_r_sub("R-path", r"syn::Error::new_spanned\(\s*(\w+),\s*ErrorMsg::ContainerAttr,?\s*\)", r"verr_container(\1)"),
                 make_r_sub("R-strfn", r"ident\.to_string\(\)\.to_snake_case\(\)", "vsnake_ident(ident)")],
          spec="ensures\n    // the container's rename attribute, else the snake_case of the type name; any other container attribute is an error\n    r is Ok <==> table_name_of(*ident, attrs@) is Some,\n    r is Ok ==> r->Ok_0@ == table_name_of(*ident, attrs@)->Some_0,")
     # per-run syntactic check (token assembly is not under contract): the enum-wide fast-path flag starts true and is only ever AND-ed with a
